@@ -109,6 +109,28 @@ Theorem C16_registry_prefix_refuted :
     get_node m' (name_of (hp s') 3) = None.
 Proof. exists ex_store, ex_model. vm_compute. repeat split; try reflexivity. repeat constructor; simpl; intuition discriminate. Qed.
 
+(* names are renamed per object: a pickled model restored after the Model object was collected (its name released) while its
+   nodes are alive keeps its own name, its nodes are renamed, and the rebuilt registry still finds them (C16_copy_supports_ops
+   makes no assumption on the model's own name); rebuilding only when the model itself was renamed is refuted *)
+Definition ex_store_gc : store nat nat := release (mkStore (hp ex_store) 3 ((0, "m") :: reg ex_store)) 0 "m".
+Example C16_model_name_free_nodes_taken :
+  let '(s', m', ren) := deepcopy_model ex_store_gc ex_model in
+  mname m' = "m" /\ map (name_of (hp s')) (mnodes m') = ["res-(copy)"; "rd-(copy)"] /\ named_ops_defined (hp s') m' = true.
+Proof. vm_compute. repeat split; reflexivity. Qed.
+(* conversely: the model's name is taken, its nodes' names are free (they are unregistered copies) *)
+Definition ex_store_conv : store nat nat :=
+  mkStore (fun j => match j with 0 => Some (ex_cell 1 "res-(copy)" 10 [1]) | 1 => Some (ex_cell 2 "rd-(copy)" 20 []) | _ => None end)
+          2 [(0, "m")].
+Example C16_model_name_taken_nodes_free :
+  let '(s', m', ren) := deepcopy_model ex_store_conv (mkMdl 0 "m" [0; 1] (init_registry (hp ex_store_conv) [0; 1]) [(0, 1)]) in
+  mname m' = "m-(copy)" /\ map (name_of (hp s')) (mnodes m') = ["res-(copy)"; "rd-(copy)"] /\ named_ops_defined (hp s') m' = true.
+Proof. vm_compute. repeat split; reflexivity. Qed.
+Theorem C16_registry_conditional_refuted :
+  exists (s : store nat nat) (m : mdl), mreg m = init_registry (hp s) (mnodes m) /\
+    let '(s', m', ren) := deepcopy_model_cond s m in
+    NoDup (map (name_of (hp s')) (mnodes m')) /\ named_ops_defined (hp s') m' = false.
+Proof. exists ex_store_gc, ex_model. vm_compute. repeat split; try reflexivity. repeat constructor; simpl; intuition discriminate. Qed.
+
 (* the hypothesis "copied names distinct" of C16_copy_supports_ops is necessary (open finding copy:renamed-name-collision):
    __setstate__ renames a registered name but never registers the new one, so a model holding node "a" (registered) and a
    deep copy of it ("a-(copy)", not registered) is copied to a model with two nodes named "a-(copy)" and one registry key *)
@@ -193,6 +215,7 @@ Print Assumptions C16_node_copy.
 Print Assumptions C16_copy_supports_ops.
 Print Assumptions C16_registry_prefix_refuted.
 Print Assumptions C16_name_collision_refuted.
+Print Assumptions C16_registry_conditional_refuted.
 Print Assumptions C16_load_compat_equiv.
 Print Assumptions C16_load_compat_step.
 Print Assumptions C16_row_vector_convention.
